@@ -143,12 +143,47 @@ fn external(rng: &mut Rng) -> Entry {
     x
 }
 
+/// an entry as an independent writer may store it: the newest history item carries a `<History>` of its own (the
+/// public API cannot build this: `History::add_entry` strips nested histories; the XML reader keeps them as found)
+fn parsed_entry_with_nested_history(rng: &mut Rng) -> Option<Entry> {
+    use crate::kdbx::{self, Inner, Kdf};
+    let t = "<Times><CreationTime>2020-01-02T03:04:05Z</CreationTime><LastModificationTime>2020-01-02T03:04:05Z</LastModificationTime><LastAccessTime>2020-01-02T03:04:05Z</LastAccessTime><LocationChanged>2020-01-02T03:04:05Z</LocationChanged><ExpiryTime>2020-01-02T03:04:05Z</ExpiryTime><Expires>False</Expires><UsageCount>0</UsageCount></Times>";
+    let u = "<UUID>AAAAAAAAAAAAAAAAAAAABw==</UUID>";
+    let item = |title: &str, inner: &str| format!("<Entry>{}<String><Key>Title</Key><Value>{}</Value></String>{}{}</Entry>", u, title, t, inner);
+    let cur = if rng.chance(2, 3) { "a" } else { "changed" };
+    let nested = format!("<History>{}</History>", item("old", ""));
+    let hist = format!("<History>{}{}</History>", item("a", &nested), if rng.chance(1, 2) { item("older", "") } else { String::new() });
+    let xml = format!("<?xml version=\"1.0\" encoding=\"utf-8\"?><KeePassFile><Meta><Generator>ref</Generator></Meta><Root><Group><UUID>AAAAAAAAAAAAAAAAAAAAAQ==</UUID><Name>R</Name>{}</Group></Root></KeePassFile>", item(cur, &hist));
+    let mut spec = crate::frame::gen_spec(rng);
+    spec.kdf = Kdf::Aes { rounds: 1, seed: rng.bytes(32) };
+    spec.inner = Inner::Plain;
+    spec.inner_key = vec![];
+    spec.attachments = vec![];
+    spec.compress = false;
+    spec.xml = xml.into_bytes();
+    let comp = crate::keyop::ref_composite(&Some("pw".to_string()), &None).unwrap();
+    let data = kdbx::build_kdbx4(&spec, &kdbx::Layout::library_like(), &comp).ok()?;
+    let db = keepass::Database::parse(&data, keepass::DatabaseKey::new().with_password("pw")).ok()?;
+    match db.root.children.into_iter().next() {
+        Some(keepass::db::Node::Entry(e)) => Some(e),
+        _ => None,
+    }
+}
+
 pub fn run(ctx: &mut Ctx) {
     let count = ctx.count(2000, 50000);
     for i in 0..count {
         let mut rng = ctx.rng.fork();
         let mut it = Intern::new();
+        let mut tags0: Vec<String> = Vec::new();
         let mut e = match i % 3 {
+            0 if i % 12 == 0 => match crate::panicx::catch(|| parsed_entry_with_nested_history(&mut rng)) {
+                Ok(Some(e)) => {
+                    tags0.push("start:parsed-with-nested-history".to_string());
+                    e
+                }
+                _ => Entry::new(),
+            },
             0 => Entry::new(),
             1 => Entry::default(),
             _ => {
@@ -162,7 +197,7 @@ pub fn run(ctx: &mut Ctx) {
         let nops = rng.range(1, 14) as usize;
         let mut ops = Vec::new();
         let mut trace = Vec::new();
-        let mut tags: Vec<String> = Vec::new();
+        let mut tags: Vec<String> = tags0.clone();
         let mut changed_since_commit = true;
         let (mut commit_after_change, mut commit_without_change) = (false, false);
         for _ in 0..nops {
